@@ -388,13 +388,13 @@ def replay_states(states, extra):
             for g in GRADERS:
                 if not supported(g, alts):
                     continue
-                for form in ('alone', 'inlist', 'insingle'):
+                for form in (('alone', 'inlist', 'insingle', 'inlist2') if full else ('alone', 'inlist', 'insingle')):
                     plan.append((g, form))
         for wi, (wrong, akey, ckey) in enumerate(((NOMSG, 'none', 'code_none'), (WRONG, 'some', 'code_some'))):
             allowed = out[akey]
-            for (g, form) in plan:
-                if not full and form != 'alone' and (n + wi) % 2:
-                    continue            # quick tier: each embedding with one of the two wrong_msg settings per case
+            for gi, (g, form) in enumerate(plan):
+                if not full and form != 'alone' and ((n + gi) % 4 != wi):
+                    continue            # quick tier: per case and grader one embedding with one wrong_msg setting
                 short = (wi == 0)
                 obs, calls = run_case(g, alts, wrong, form, short=short, variant=n)
                 evals += 1
@@ -416,6 +416,28 @@ def replay_states(states, extra):
                     drift.append('comparison order %s differs from the modelled listing order %s'
                                  % (calls, flat_positions(alts)[:out['calls']]))
     return {'n': n, 'evals': evals, 'keys': sorted(keys), 'bad': bad, 'drift': drift, 'sample': sample}
+
+
+def replay_loop_states(states, extra):
+    """terminal states of the check-loop machine: comparison history and returned outcome against TableGrader (drift only)"""
+    from engine import repo
+    repo.activate()
+    n = 0
+    drift = []
+    keys = set()
+    for st in states:
+        if st['pc'] not in ('done', 'failed'):
+            continue
+        n += 1
+        alts, wrong = st['case']['alts'], st['case']['wrong']
+        obs, calls = run_case('table', alts, wrong, 'alone', short=False)
+        keys.add(('loop', st['pc'], len(alts), len(st['hist'])))
+        want = ['v%d_%d' % (p[0], p[1]) for p in st['hist']]
+        if calls != want and len(drift) < 3:
+            drift.append('check loop: comparisons %s, model history %s' % (calls, want))
+        if obs != st['ret'] and len(drift) < 3:
+            drift.append('check loop: returned %s, model returned %s' % (brief([obs]), brief([st['ret']])))
+    return {'n': n, 'drift': drift, 'keys': sorted(keys)}
 
 
 def report(ctx, b):
@@ -525,6 +547,23 @@ def run(ctx):
             for dr in x['drift']:
                 ctx.note_drift(dr)
         bounds['cases_' + part] = sum(x['n'] for x in res)
+    # implementation-shaped check-loop machine: refinement + termination by TLC, step history against the code as drift
+    d = os.path.join(ctx.scratch, 'loop')
+    r = ctx.tlc('graders/MC_BestAlternativeLoop.tla', 'graders/MC_BestAlternativeLoop_quick.cfg', dump=d, timeout=3000)
+    bounds['tlc_states_loop'] = r.distinct
+    res = dump.parallel(d + '.dump', 'engine.adapters.c08', 'replay_loop_states')
+    os.remove(d + '.dump')
+    for x in res:
+        ctx.traces_validated += x['n']
+        ctx.evaluations += x['n']
+        for k in x['keys']:
+            ctx.nontrivial.add(tuple(map(str, k)))
+        for dr in x['drift']:
+            ctx.note_drift(dr)
+    bounds['loop_behaviours_replayed'] = sum(x['n'] for x in res)
+    if not ctx.quick:
+        r = ctx.tlc('graders/MC_BestAlternativeLoop.tla', 'graders/MC_BestAlternativeLoop_thorough.cfg', timeout=6000)
+        bounds['tlc_states_loop_3'] = r.distinct
     # code -> spec
     n = 4000 if ctx.quick else 60000
     cases = []
